@@ -527,7 +527,16 @@ func (t *Topic) handleTopicTermination(sd *shutDown) {
 	// In case of a system shutdown don't bother with notifications. They won't be delivered anyway.
 
 	// Tell sessions to remove the topic
-	for s := range t.sessions {
+	for s, pssd := range t.sessions {
+		if sd.reason == StopNone && !s.isMultiplex() {
+			// The session was attached after the idle timer had fired and before the hub
+			// unregistered the topic: its {sub} has been acknowledged, tell it that it is detached.
+			name := t.original(pssd.uid)
+			if pssd.isChanSub {
+				name = types.GrpToChn(name)
+			}
+			s.queueOut(NoErrEvicted("", name, types.TimeNow()))
+		}
 		s.detachSession(t.name)
 	}
 
